@@ -40,6 +40,68 @@ var commonJust = justTable{
 
 func init() {
 	commonJust["sshutils/version.Unmarshal|slice p0[:call<strings.Index>(p0,const(\".\"))]"] = "guarded by the must-fact versionRE.MatchString(s) with versionRE = ^\\d+\\.\\d+$: a '.' is present, so the index is >= 0"
+	justGuards["sshutils/version.Unmarshal|slice p0[:call<strings.Index>(p0,const(\".\"))]"] = func(w *World, fn *ssa.Function, ins ssa.Instruction) bool {
+		// must-fact: <package-level *regexp.Regexp>.MatchString(s) == true, the regexp being compiled once from a
+		// constant pattern that requires a literal dot
+		return w.factsOf(fn).Any(ins.Block(), func(l Lit) bool {
+			call, ok := l.V.(*ssa.Call)
+			if !ok || !l.Pol || calleeName(call) != "(*regexp.Regexp).MatchString" || len(call.Call.Args) != 2 || call.Call.Args[1] != ssa.Value(fn.Params[0]) {
+				return false
+			}
+			ld, ok := call.Call.Args[0].(*ssa.UnOp)
+			if !ok {
+				return false
+			}
+			g, ok := ld.X.(*ssa.Global)
+			if !ok || g.Pkg == nil {
+				return false
+			}
+			// the single store to the global, in the package initialiser: regexp.MustCompile(<constant>)
+			pat, n := "", 0
+			if init := g.Pkg.Func("init"); init != nil {
+				for _, b := range init.Blocks {
+					for _, i2 := range b.Instrs {
+						if st, isSt := i2.(*ssa.Store); isSt && st.Addr == ssa.Value(g) {
+							n++
+							if mc, isCall := st.Val.(*ssa.Call); isCall && (calleeName(mc) == "regexp.MustCompile" || calleeName(mc) == "regexp.MustCompilePOSIX") {
+								pat, _ = strConst(mc.Call.Args[0])
+							}
+						}
+					}
+				}
+			}
+			for _, f2 := range w.RepoFuncs() {
+				if f2.Name() == "init" {
+					continue
+				}
+				for _, b := range f2.Blocks {
+					for _, i2 := range b.Instrs {
+						if st, isSt := i2.(*ssa.Store); isSt && st.Addr == ssa.Value(g) {
+							n++
+						}
+					}
+				}
+			}
+			// anchored, no alternation, and a mandatory escaped dot (not followed by a quantifier that admits zero)
+			i := strings.Index(pat, `\.`)
+			if n != 1 || i < 0 || !strings.HasPrefix(pat, "^") || !strings.HasSuffix(pat, "$") || strings.Contains(pat, "|") {
+				return false
+			}
+			rest := pat[i+2:]
+			return !(strings.HasPrefix(rest, "?") || strings.HasPrefix(rest, "*") || strings.HasPrefix(rest, "{0"))
+		})
+	}
+	justGuards["sshutils/key.CastSSHPublicKeyToCertificate|type assertion call<ssh.ParsePublicKey>(call<(ssh.PublicKey).Marshal>(p0))#0.(*ssh.Certificate)"] = func(w *World, fn *ssa.Function, ins ssa.Instruction) bool {
+		// must-fact: strings.Contains(key.Type(), "cert") == true
+		return w.factsOf(fn).Any(ins.Block(), func(l Lit) bool {
+			call, ok := l.V.(*ssa.Call)
+			if !ok || !l.Pol || calleeName(call) != "strings.Contains" || len(call.Call.Args) != 2 {
+				return false
+			}
+			k, isK := strConst(call.Call.Args[1])
+			return isK && k == "cert" && strings.HasSuffix(w.ExprIn(fn, call.Call.Args[0]), "ssh.PublicKey).Type>(p0)")
+		})
+	}
 	commonJust["attestation/yubiattest.ModHex|index alloc<[8]byte>[:const(8)][phi{(↺+const(2))|phi{(const(0)+const(2))|const(0)}}]"] = "dst index runs from the arm's offset in steps of 2 over len(serial) bytes; C16.R4 decides 2*len(serial)+offset == 8 in each admitted arm"
 	commonJust["attestation/yubiattest.ModHex|index alloc<[8]byte>[:const(8)][(phi{(↺+const(2))|phi{(const(0)+const(2))|const(0)}}+const(1))]"] = "dst index+1, same argument: C16.R4 decides 2*len(serial)+offset == 8 in each admitted arm"
 	// crypto/ecdh PublicKey.Bytes() is the uncompressed point: 65 / 97 / 133 bytes for P-256 / P-384 / P-521, and each
